@@ -10,6 +10,7 @@ import (
 	"strconv"
 	"strings"
 	"sync"
+	"sync/atomic"
 	"syscall"
 	"time"
 
@@ -26,7 +27,8 @@ import (
 // Parent mode: for daemon delay {0,50,300 ms} x launcher pause {0,200 ms} (hook VERIF_PAUSE_LAUNCH_AFTERSTART,
 // read by the launcher, inherited through os.Environ()) x {1,4} concurrent Launch calls:
 //
-//	E <delay_ms> <pause_ms> <n> <i> <class> <pid_matches> <marker_at_return> <alive> <reparented> <launcher_gone> <done_at_return> <right_handler> <survived> <variant> <hex err>
+//	E <delay_ms> <pause_ms> <n> <i> <class> <pid_matches> <marker_at_return> <alive> <reparented> <launcher_gone> <done_at_return> <right_handler> <done_nil> <survived> <variant> <hex err>
+//	F <variant> <n> <i> <class> <pid> <daemons_left>      a Launch whose daemon dies before Done(): must fail (judged here)
 //	VIOL <scenario> ...      when a Launch violates the property (the same case also has its E line)
 //
 // Daemon handler variants (VERIF_C20_STDERR, set by the caller per scenario): none | before | after | both —
@@ -40,6 +42,13 @@ import (
 // used alternately; the returned pid must run the handler that was asked for and be returned by one Launch only.
 // When the launcher pause is set, a successful Launch that took less than the pause means the hook is gone
 // (harness error "hook missing": the forced schedule is not achieved).
+//
+// More handler variants: exit / panic — the daemon dies before Done(): Launch must return an error and pid 0 (what the
+// code does: "daemon: exit status N" from the launcher's stderr), and the launches that FOLLOW it in this process must
+// be unaffected (a sequence of such launches and normal ones runs from one goroutine); unsetenv / clearenv — the
+// handler removes the ENV_DAEMON_* markers / its whole environment before Done(): Launch must still return nil and the
+// right pid in time. <done_nil>: Done() returned nil in the daemon (recorded in done.<pid>). Every scenario has its
+// own directory, so the marker a returned pid is compared with is the marker of THIS launch: a stale pid finds none.
 //
 // class: ok | run ("start launcher: …") | stderr | stdout ("launcher stdout: …") | other (timeout).
 // The daemon writes <dir>/marker.<its pid> ("<pid> <unix nanos>") before Done(), so the daemon of a FAILED
@@ -82,6 +91,10 @@ func c20Daemon(self string) {
 		}
 	}
 	pid := os.Getpid()
+	life := 20 * time.Second // everything needed from the environment is read before a variant scrubs it
+	if d, err := time.ParseDuration(os.Getenv(envLife)); err == nil && d > 0 {
+		life = d
+	}
 	if dir != "" {
 		tmp := filepath.Join(dir, fmt.Sprintf(".tmp.%d", pid))
 		if err := os.WriteFile(tmp, []byte(fmt.Sprintf("%d %d %s\n", pid, time.Now().UnixNano(), self)), 0o644); err == nil {
@@ -93,6 +106,17 @@ func c20Daemon(self string) {
 	}
 	if d, err := time.ParseDuration(delayStr); err == nil && d > 0 {
 		time.Sleep(d)
+	}
+	switch variant {
+	case "exit":
+		os.Exit(3)
+	case "panic":
+		panic("c20 daemon: dies before Done()")
+	case "unsetenv": // so that helpers started from os.Args[0] do not become daemons again
+		os.Unsetenv("ENV_DAEMON_NAME")
+		os.Unsetenv("ENV_DAEMON_FLAG")
+	case "clearenv":
+		os.Clearenv()
 	}
 	if dir != "" {
 		os.WriteFile(filepath.Join(dir, fmt.Sprintf("predone.%d", pid)), []byte(fmt.Sprintf("%d\n", time.Now().UnixNano())), 0o644)
@@ -112,10 +136,6 @@ func c20Daemon(self string) {
 	}
 	if dir != "" {
 		os.WriteFile(filepath.Join(dir, fmt.Sprintf("late.%d", pid)), []byte(fmt.Sprintf("%d\n", time.Now().UnixNano())), 0o644)
-	}
-	life := 20 * time.Second
-	if d, err := time.ParseDuration(os.Getenv(envLife)); err == nil && d > 0 {
-		life = d
 	}
 	time.Sleep(life)
 }
@@ -258,6 +278,7 @@ type launchObs struct {
 	ranHandler string // handler the returned pid runs (from its marker)
 	rightH     bool
 	doneAtRet  bool
+	doneNil    bool
 	survived   bool
 	stateLater string // /proc state when looked at again ("gone" when the process has disappeared)
 	took       time.Duration
@@ -284,30 +305,48 @@ func b01(b bool) string {
 	return "0"
 }
 
-func oneLaunch(dir, name string, limit time.Duration) launchObs {
+// oneLaunch calls Launch with a bound. direct: on the calling goroutine (sequences: consecutive launches of one
+// goroutine), a watchdog kills the stuck launcher instead; otherwise on a goroutine of its own.
+func oneLaunch(dir, name string, limit time.Duration, direct bool) launchObs {
 	type res struct {
 		pid int
 		err error
 	}
-	ch := make(chan res, 1)
+	var o launchObs
+	o.name = name
 	t0 := time.Now()
-	go func() {
+	call := func() (r res) {
 		defer func() {
-			if r := recover(); r != nil {
-				ch <- res{0, fmt.Errorf("panic: %v", r)}
+			if p := recover(); p != nil {
+				r = res{0, fmt.Errorf("panic: %v", p)}
 			}
 		}()
 		pid, err := daemon.Launch(name)
-		ch <- res{pid, err}
-	}()
-	var o launchObs
-	o.name = name
-	select {
-	case r := <-ch:
+		return res{pid, err}
+	}
+	if direct {
+		var hung atomic.Bool
+		wd := time.AfterFunc(limit, func() {
+			hung.Store(true)
+			killAndWait(childrenOf(os.Getpid()))
+		})
+		r := call()
+		wd.Stop()
 		o.pid, o.err = r.pid, r.err
-	case <-time.After(limit):
-		o.timedOut = true
-		o.err = fmt.Errorf("Launch did not return within %v", limit)
+		if hung.Load() {
+			o.timedOut = true
+			o.err = fmt.Errorf("Launch did not return within %v", limit)
+		}
+	} else {
+		ch := make(chan res, 1)
+		go func() { ch <- call() }()
+		select {
+		case r := <-ch:
+			o.pid, o.err = r.pid, r.err
+		case <-time.After(limit):
+			o.timedOut = true
+			o.err = fmt.Errorf("Launch did not return within %v", limit)
+		}
 	}
 	o.took = time.Since(t0)
 	o.returned = time.Now()
@@ -384,9 +423,9 @@ func runC20(e *hk.Env) error {
 	pauses := []int{0, 200}
 	conc := []int{1, 4}
 	rounds := 1
-	stress := 4
+	stress, seqRounds := 4, 2
 	if e.Thorough() {
-		stress = 20
+		stress, seqRounds = 20, 10
 		delays = []int{0, 5, 20, 50, 100, 300}
 		pauses = []int{0, 50, 200, 500}
 		conc = []int{1, 4, 8}
@@ -414,7 +453,9 @@ func runC20(e *hk.Env) error {
 	type scenario struct {
 		delay, pause, n int
 		variant         string
+		direct          bool // a step of a sequence: Launch is called on the sweep's own goroutine
 	}
+	expectFail := func(v string) bool { return v == "exit" || v == "panic" }
 	var scenarios []scenario
 	for _, pause := range pauses {
 		for _, delay := range delays {
@@ -430,6 +471,19 @@ func runC20(e *hk.Env) error {
 			scenarios = append(scenarios, scenario{1000, 0, n, "none"})
 			if e.Thorough() {
 				scenarios = append(scenarios, scenario{4500, 0, n, "none"})
+			}
+		}
+		// handlers that scrub their environment before Done(), and daemons that die before Done()
+		for _, v := range []string{"unsetenv", "clearenv", "exit", "panic"} {
+			for _, n := range conc[:min(2, len(conc))] {
+				scenarios = append(scenarios, scenario{delays[0], pauses[0], n, v, false})
+			}
+		}
+		// sequences in one goroutine: launches that fail (daemon dies before Done()) followed by normal ones
+		seq := []string{"exit", "none", "panic", "none", "none", "exit", "exit", "none", "unsetenv", "panic", "after", "none"}
+		for k := 0; k < seqRounds; k++ {
+			for _, v := range seq {
+				scenarios = append(scenarios, scenario{delays[0], pauses[0], 1, v, true})
 			}
 		}
 		// many overlapping launches under two names: state shared between Launch calls shows as a wrong handler
